@@ -247,8 +247,8 @@ pub fn defs() -> Vec<CheckDef> {
     vec![CheckDef {
         id: "C05",
         level: "fault_enumeration",
-        runs_quick: 250_000,
-        runs_thorough: 8_000_000,
+        runs_quick: 600_000,
+        runs_thorough: 10_000_000,
         block: 512,
         gen: gen_c05,
         exec,
